@@ -556,8 +556,10 @@ pub fn check_case(m: &Machine, case: &Case, info: &mut CaseInfo) -> CheckResult 
                     Err((msg, loc)) => {
                         // a panic is not a rejection; state must still be unchanged
                         ensure!(same(&before, &after), "replica state changed by a command that made it panic", "{}: {msg}", ctx());
-                        let file = loc.rsplit_once(':').map(|x| x.0).unwrap_or(&loc).to_string();
-                        let fl = Failure::new(format!("replica panics on a mutated {what}: {}", vcommon::short_loc(&file)), format!("{}: panic `{msg}` at {loc}", ctx()));
+                        // file without line number, relative to the repository root wherever it is checked out
+                        let file = loc.rsplit_once(':').map(|x| x.0).unwrap_or(&loc);
+                        let file = file.find("crates/").map(|i| &file[i..]).unwrap_or(file);
+                        let fl = Failure::new(format!("replica panics on a mutated {what}: {file}"), format!("{}: panic `{msg}` at {loc}", ctx()));
                         if covered {
                             if deferred.is_none() {
                                 deferred = Some(fl);
@@ -660,11 +662,12 @@ pub fn check_case(m: &Machine, case: &Case, info: &mut CaseInfo) -> CheckResult 
     for l in seen {
         info.label(l);
     }
-    finish_case(info, deferred, rejected_covered)
+    let both_authors = case.steps.iter().any(|s| s.dev_c) && case.steps.iter().any(|s| !s.dev_c);
+    finish_case(info, deferred, rejected_covered, both_authors)
 }
 
-fn finish_case(info: &mut CaseInfo, deferred: Option<Failure>, rejected_covered: u32) -> CheckResult {
-    if rejected_covered >= 10 {
+fn finish_case(info: &mut CaseInfo, deferred: Option<Failure>, rejected_covered: u32, both_authors: bool) -> CheckResult {
+    if rejected_covered >= 20 && both_authors {
         info.nontrivial();
     }
     match deferred {
@@ -687,7 +690,7 @@ pub fn run(ctx: &Ctx) -> ! {
          captured as wire commands from A's storage and delivered one by one to a fresh replica B: first with each of 7 statement-covered single mutations \
          (payload bit, command name, author id, signature bit, command id bit, parent id -> other stored command or bit flip, arbitrary wire bit) and 4 uncovered ones, each in its own \
          transaction, then unmodified; oracle: mutated => add_commands Err and heads / stored ids / fact scan unchanged and no committed effects, unmodified => accepted, \
-         B == A at the end; non-trivial = >=10 covered mutations rejected in the case",
+         B == A at the end; non-trivial = both devices authored commands after registration and >=20 covered mutations were rejected in the case",
         || case(8),
         n,
         |c: &Case, info| check_case(&m, c, info),
